@@ -270,8 +270,10 @@ def _invert(test: ast.AST) -> ast.AST:
     return ast.UnaryOp(op=ast.Not(), operand=test)
 
 
-def structural_twins(repo: str, rel: str, families: tuple[str, ...] = ("invert-if", "temp-return", "split-and", "flip-compare", "early-continue", "comp-to-loop")) -> list[tuple[str, dict[str, str]]]:
+def structural_twins(repo: str, rel: str, families: tuple[str, ...] = ("invert-if", "temp-return", "split-and", "flip-compare", "early-continue", "comp-to-loop", "swap-independent")) -> list[tuple[str, dict[str, str]]]:
     """(description, overlay): one twin per site.
+
+    swap-independent  ``a = e1; b = e2`` -> ``b = e2; a = e1``  (adjacent, effect-free, mutually independent)
 
     invert-if    ``if c: A else: B``  ->  ``if not c: B else: A``
     temp-return  ``return <expr>``    ->  ``_ret_tw = <expr>; return _ret_tw``
@@ -425,6 +427,135 @@ def structural_twins(repo: str, rel: str, families: tuple[str, ...] = ("invert-i
             lst[k : k + 1] = [ast.Assign(targets=[ast.Name(id=acc, ctx=ast.Store())], value=init), loop]
 
         per_site(pred5, rw5, "comp-to-loop")
+    if "swap-independent" in families:
+        # S1; S2  ->  S2; S1   for two adjacent plain assignments to different local names that do not read each
+        # other's target and whose right-hand sides are effect-free (no call, await, yield, walrus): statement order
+        # between independent definitions is not behaviour
+        PURE_FUNCS = {"len", "set", "list", "dict", "tuple", "frozenset", "sorted", "isinstance", "getattr", "str", "repr", "bool", "int", "min", "max", "any", "all", "sum", "enumerate", "zip", "reversed", "type", "id"}
+        PURE_METHODS = {"get", "keys", "values", "items", "copy", "union", "intersection", "difference", "issubset", "issuperset", "startswith", "endswith", "split", "join", "strip", "lower", "upper", "index", "count", "format"}
+
+        def pure(e):
+            for x in ast.walk(e):
+                if isinstance(x, (ast.Await, ast.Yield, ast.YieldFrom, ast.NamedExpr, ast.Lambda)):
+                    return False
+                if isinstance(x, ast.Call):
+                    if isinstance(x.func, ast.Name) and x.func.id in PURE_FUNCS:
+                        continue
+                    if isinstance(x.func, ast.Attribute) and x.func.attr in PURE_METHODS:
+                        continue
+                    return False
+            return True
+
+        def names(e):
+            return {x.id for x in ast.walk(e) if isinstance(x, ast.Name)}
+
+        def simple_assign(n):
+            return isinstance(n, ast.Assign) and len(n.targets) == 1 and isinstance(n.targets[0], ast.Name) and pure(n.value)
+
+        pairs = []
+        for holder in ast.walk(base):
+            if not isinstance(holder, (ast.FunctionDef, ast.AsyncFunctionDef, ast.If, ast.For, ast.AsyncFor, ast.While, ast.With, ast.AsyncWith, ast.Try)):
+                continue
+            for fld in ("body", "orelse", "finalbody"):
+                lst = getattr(holder, fld, None)
+                if not isinstance(lst, list):
+                    continue
+                for k in range(len(lst) - 1):
+                    a, b = lst[k], lst[k + 1]
+                    if simple_assign(a) and simple_assign(b) and a.targets[0].id != b.targets[0].id and a.targets[0].id not in names(b.value) and b.targets[0].id not in names(a.value):
+                        pairs.append((a.lineno, b.lineno))
+        for la, lb in pairs:
+            tree = _copy.deepcopy(base)
+            done = False
+            for holder in ast.walk(tree):
+                for fld in ("body", "orelse", "finalbody"):
+                    lst = getattr(holder, fld, None)
+                    if isinstance(lst, list):
+                        for k in range(len(lst) - 1):
+                            if getattr(lst[k], "lineno", None) == la and getattr(lst[k + 1], "lineno", None) == lb and simple_assign(lst[k]) and simple_assign(lst[k + 1]):
+                                lst[k], lst[k + 1] = lst[k + 1], lst[k]
+                                done = True
+                                break
+                    if done:
+                        break
+                if done:
+                    break
+            if done:
+                emit(f"swap-independent@{la}", tree)
+    if "inline-temp" in families:
+        # t = e; STMT(t)  ->  STMT(e)   when t is bound once in its function, read exactly once — in the statement that
+        # follows — and e is effect-free (same purity notion as swap-independent)
+        PF = {"len", "set", "list", "dict", "tuple", "frozenset", "sorted", "isinstance", "getattr", "str", "repr", "bool", "int", "min", "max", "any", "all", "sum", "enumerate", "zip", "reversed", "type", "id"}
+        PM = {"get", "keys", "values", "items", "copy", "union", "intersection", "difference", "issubset", "issuperset", "startswith", "endswith", "split", "join", "strip", "lower", "upper", "index", "count", "format"}
+
+        def pure2(e):
+            for x in ast.walk(e):
+                if isinstance(x, (ast.Await, ast.Yield, ast.YieldFrom, ast.NamedExpr, ast.Lambda)):
+                    return False
+                if isinstance(x, ast.Call) and not (isinstance(x.func, ast.Name) and x.func.id in PF or isinstance(x.func, ast.Attribute) and x.func.attr in PM):
+                    return False
+            return True
+
+        sites6 = []
+        for fn in [n for n in ast.walk(base) if isinstance(n, (ast.FunctionDef, ast.AsyncFunctionDef))]:
+            stores: dict[str, int] = {}
+            loads: dict[str, int] = {}
+            for x in ast.walk(fn):
+                if isinstance(x, ast.Name):
+                    if isinstance(x.ctx, ast.Store):
+                        stores[x.id] = stores.get(x.id, 0) + 1
+                    elif isinstance(x.ctx, ast.Load):
+                        loads[x.id] = loads.get(x.id, 0) + 1
+                elif isinstance(x, ast.arg):
+                    stores[x.arg] = stores.get(x.arg, 0) + 1
+            for holder in ast.walk(fn):
+                for fld in ("body", "orelse", "finalbody"):
+                    lst = getattr(holder, fld, None)
+                    if not isinstance(lst, list):
+                        continue
+                    for k in range(len(lst) - 1):
+                        a = lst[k]
+                        if not (isinstance(a, ast.Assign) and len(a.targets) == 1 and isinstance(a.targets[0], ast.Name) and pure2(a.value)):
+                            continue
+                        t_ = a.targets[0].id
+                        nxt = lst[k + 1]
+                        if isinstance(nxt, (ast.For, ast.AsyncFor, ast.While, ast.FunctionDef, ast.AsyncFunctionDef, ast.ClassDef, ast.Try, ast.With, ast.AsyncWith)):
+                            continue  # the use could be evaluated repeatedly / later
+                        head = nxt.test if isinstance(nxt, ast.If) else nxt
+                        uses = [x for x in ast.walk(head) if isinstance(x, ast.Name) and x.id == t_ and isinstance(x.ctx, ast.Load)]
+                        if stores.get(t_, 0) == 1 and loads.get(t_, 0) == 1 and len(uses) == 1 and not any(isinstance(x, (ast.ListComp, ast.SetComp, ast.DictComp, ast.GeneratorExp, ast.Lambda)) and any(y is uses[0] for y in ast.walk(x)) for x in ast.walk(head)):
+                            sites6.append((a.lineno, t_))
+        for la, t_ in sites6:
+            tree = _copy.deepcopy(base)
+            done = False
+            for holder in ast.walk(tree):
+                for fld in ("body", "orelse", "finalbody"):
+                    lst = getattr(holder, fld, None)
+                    if isinstance(lst, list):
+                        for k in range(len(lst) - 1):
+                            a = lst[k]
+                            if isinstance(a, ast.Assign) and getattr(a, "lineno", None) == la and isinstance(a.targets[0], ast.Name) and a.targets[0].id == t_:
+                                nxt = lst[k + 1]
+
+                                class _Sub(ast.NodeTransformer):
+                                    def visit_Name(self, n):
+                                        if n.id == t_ and isinstance(n.ctx, ast.Load):
+                                            return _copy.deepcopy(a.value)
+                                        return n
+
+                                if isinstance(nxt, ast.If):
+                                    nxt.test = _Sub().visit(nxt.test)
+                                else:
+                                    lst[k + 1] = _Sub().visit(nxt)
+                                del lst[k]
+                                done = True
+                                break
+                    if done:
+                        break
+                if done:
+                    break
+            if done:
+                emit(f"inline-temp@{la}:{t_}", tree)
     return out
 
 
